@@ -7,7 +7,7 @@ From Coq Require Import List ZArith Bool Arith.
 From FB Require Import Model.Exec Model.TraceSpec Model.ExecInv.
 From FB Require Import Model.Settle.
 From FB Require Proofs.ExecLife Proofs.ExecProps Proofs.ExecSpec Proofs.ExecTerminal Proofs.ExecProgress Proofs.ExecProgress2
-                Proofs.ExecProgress3 Proofs.ExecProgressFlat2 Proofs.ExecFinal.
+                Proofs.ExecProgress3 Proofs.ExecProgressFlat2 Proofs.ExecFinal Proofs.ExecSetupFail.
 From FB Require Lib.Sexp Judge.E1.
 Import ListNotations.
 
@@ -99,6 +99,21 @@ Theorem C03_maximal_run_is_clean : forall nt T s sch s',
   mn s' = MDone /\ timedout s' = false.
 Proof. exact ExecProgress3.maximal_run_clean. Qed.
 
+(* the source need not have stopped yet: unless the process has died in prepareSource (a failed Setup of a
+   replacement source, [SDead]), the clean end is reachable from EVERY reachable state: the running incarnation
+   returns nil (after the restart, if the supervisor is in its pause), then the cascade *)
+Theorem C03_can_finish_unless_source_dead : forall nt T s,
+  ExecProgress.live_net nt -> reachable nt T s -> src s <> SDead -> timedout s = false ->
+  exists pre sch s',
+    (pre = [] \/ pre = [SrcReturnNil] \/ pre = [SrcRestart; SrcReturnNil])
+    /\ forallb ExecProgress.finishing sch = true /\ run nt T s (pre ++ sch) = Ok s' /\ mn s' = MDone /\ timedout s' = false.
+Proof. exact ExecSetupFail.can_finish_unless_dead. Qed.
+(* [src s <> SDead] is necessary: after the failed Setup no schedule at all lets Execute return (the real process
+   has exited; in the model the main goroutine waits at its select for ever) *)
+Theorem C03_dead_source_never_finishes : forall nt T s sch s', wf_net nt = true -> reachable nt T s -> src s = SDead ->
+  run nt T s sch = Ok s' -> src s' = SDead /\ mn s' <> MDone /\ mn s' <> MWait /\ mn s' <> MCloseRoots.
+Proof. exact ExecSetupFail.dead_never_done. Qed.
+
 Theorem C03_every_started_table_is_live : forall cfgs,
   forallb (fun x => Nat.ltb 0 (nworkers x)) (flatten cfgs) = true ->
   ExecProgress.buffered_b (flatten cfgs) = true ->
@@ -124,5 +139,7 @@ Print Assumptions C03_spec_sound.
 Print Assumptions C03_can_always_finish.
 Print Assumptions C03_every_run_ends_clean.
 Print Assumptions C03_maximal_run_is_clean.
+Print Assumptions C03_can_finish_unless_source_dead.
+Print Assumptions C03_dead_source_never_finishes.
 Print Assumptions C03_every_started_table_is_live.
 Print Assumptions C03_final_clauses_sound.
